@@ -283,7 +283,7 @@ def check_copy(c, rec):
 # ---- documented in-place calls touch only what they document -------------------------------------
 @st.composite
 def inplace_cases(draw):
-    return {"which": draw(st.sampled_from(["sgd", "adam", "adamw", "init", "bn_train", "zero_grad", "tensor_zero"])),
+    return {"which": draw(st.sampled_from(["sgd", "adam", "adamw", "init", "bn_train", "zero_grad", "tensor_zero", "bn_eval_one_buffer", "bn_eval_one_buffer"])),
             "seed": draw(st.integers(0, 2 ** 31 - 1)), "dtype": draw(gen.DTYPES),
             "n": draw(st.integers(1, 4)), "m": draw(st.integers(1, 4))}
 
@@ -326,6 +326,28 @@ def check_inplace(c, rec):
             raise Violation("operand_modified", "BatchNorm1d training forward/backward changed its input", region="bn")
         if (_snap(bn.weight.data), _snap(bn.bias.data)) != w_before:
             raise Violation("inplace_scope", "BatchNorm1d training forward changed its affine parameters")
+    elif w == "bn_eval_one_buffer":
+        # an eval-mode layer that holds only ONE of its two running statistics (the other was set to None): whatever it
+        # computes, an eval-mode forward does not write statistics
+        bn = nn.BatchNorm1d(c["m"], dtype=dt.type)
+        bn(Tensor(rng.randn(4, c["m"]).astype(dt)))
+        bn.eval()
+        if c["seed"] % 2:
+            bn.running_var = None
+            keep = bn.running_mean
+        else:
+            bn.running_mean = None
+            keep = bn.running_var
+        snap = _snap(keep.data)
+        try:
+            bn(Tensor(rng.randn(3, c["m"]).astype(dt)))
+            bn(Tensor(rng.randn(5, c["m"]).astype(dt)))
+        except Exception:  # noqa: BLE001   (refusing such a layer is fine)
+            rec.tag("one_buffer_refused")
+        cur = bn.running_mean if c["seed"] % 2 else bn.running_var
+        if cur is None or _snap(cur.data) != snap:
+            raise Violation("buffer_modified", f"an eval-mode BatchNorm forward changed the running statistic it still holds "
+                                               f"(the other one is None); dtype={dt}", region="one_buffer")
     elif w == "zero_grad":
         m = nn.Linear(c["m"], c["n"])
         wd = (_snap(m.weight.data), _snap(m.bias.data))
